@@ -77,12 +77,17 @@ def run(chk, replay=None):
                             "DNs: attribute types without surrounding spaces, single-valued RDNs; lower-case 'dc=' and empty values are drift (not the form AD emits)"]
         # ---- the same entry points called by 8 goroutines at once (race-detector build): results as when called alone
         vlib.parallel_callers(chk, "ldap")
+        # ---- specification growth: the session methods that apply the two functions to what a directory returns
+        from checks import g07
+        g07.run_growth(chk, tier, chk.seed)
+        chk.assumptions.append("growth: LDAPDirectory.tla -- the LDAP session layer over a modelled directory served by an in-process LDAP server; "
+                               "the SID text / DNS domain of returned entries are C16 clauses, searches sent / NetBIOS names / counts / errors are drift (G07)")
     finally:
         shutil.rmtree(d, ignore_errors=True)
 
 
 MANIFEST = {
-    "technique": "TLA+ reference for the SID string form (MS-DTYP 2.4.2, big-number decimal printing on byte strings) and for RFC 4514 DN parsing; TLC-enumerated case table replayed into ldap.ParseSIDFromBytes / GetDomainFromDistinguishedName; recorded random calls judged line by line by TLC",
-    "level_text": "The specification computes the expected text: TLC enumerates all sub-authority counts 0..15 x value patterns (0, 1, 2^31, 2^32-1, digit boundaries, distinct, seeded) x identifier authorities (small, 2^32-1, 2^32, 2^48-1) and all RDN sequences up to length 3/4 over 4 types x 5 values (plain, escaped comma, escaped comma followed by DC=, escaped backslash, empty); each case is executed on the real function. Random full-range inputs recorded from the code are judged by the same modules.",
+    "technique": "TLA+ reference for the SID string form (MS-DTYP 2.4.2, big-number decimal printing on byte strings) and for RFC 4514 DN parsing; TLC-enumerated case table replayed into ldap.ParseSIDFromBytes / GetDomainFromDistinguishedName; recorded random calls judged line by line by TLC; the session methods (GetDomain, GetAllDomains, FindObjectSIDByRID, ...) driven through a real ldap.Session against an in-process LDAP server that serves TLC-enumerated directories (LDAPDirectory.tla)",
+    "level_text": "The specification computes the expected text: TLC enumerates all sub-authority counts 0..15 x value patterns (0, 1, 2^31, 2^32-1, digit boundaries, distinct, seeded) x identifier authorities (small, 2^32-1, 2^32, 2^48-1) and all RDN sequences up to length 3/4 over 4 types x 5 values (plain, escaped comma, escaped comma followed by DC=, escaped backslash, empty); each case is executed on the real function. Random full-range inputs recorded from the code are judged by the same modules. The session layer is executed on enumerated directories x calls: the SID text / DNS domain it reports for an entry the directory returned must be the specification's for that entry.",
     "level_note": "Values between the enumerated patterns are sampled (seeded + random), not enumerated; multi-valued RDNs and ill-formed SIDs are out of scope.",
 }
